@@ -164,6 +164,17 @@ pub fn jtoken_to_runtime_object(
                 )));
             }
 
+            // Float value given as text (NaN, which is no JSON number)
+            let prop_value = obj.get("^f");
+
+            if let Some(v) = prop_value {
+                let val = jtoken_to_str(v, "^f")?
+                    .parse::<f32>()
+                    .map_err(|_| bad_json_value("^f", v))?;
+
+                return Ok(Rc::new(Value::new::<f32>(val)));
+            }
+
             // // VariablePointerValue
             let prop_value = obj.get("^var");
 
